@@ -20,7 +20,13 @@ func genBurnHistory(r *RNG, nBlocks int) []string {
 	hexa := func(i int) string { return fmt.Sprintf("%x", []byte(accts[i].Addr)) }
 	burn := burntypes.BurnAddress
 	now := int64(1700000100_000000000)
-	add("# GENESIS %d %s", 4, "1000000000000")
+	many := r.Chance(12) // a chain with two dozen denominations, of which most reach the burn address within one block
+	if many {
+		add("# GENESIS %d %s %d", 4, "1000000000000", 24)
+	} else {
+		add("# GENESIS %d %s", 4, "1000000000000")
+	}
+	manyAt := 1 + r.Intn(max(1, nBlocks-1))
 	vested := false
 	coinsOf := func() string {
 		amt := pick(r, []string{"1", "77", "1000", "999999", "0"})
@@ -45,6 +51,26 @@ func genBurnHistory(r *RNG, nBlocks int) []string {
 				add("TX %s %s", toks(feeDenom)+":10", hexa(i))
 				add("M bank.Send %s %s %s", toks(addr(i)), toks(authtypes.NewModuleAddress(mod).String()), toks(feeDenom)+":1")
 				add("ENDTX")
+			}
+		}
+		if many && b == manyAt {
+			// 17 to 24 denominations arrive at the burn address in this block (one send, or one send per denomination)
+			k := 17 + r.Intn(8)
+			var parts []string
+			for j := 0; j < k; j++ {
+				parts = append(parts, fmt.Sprintf("%s:%d", toks(fmt.Sprintf("tok%02d", j)), 1+r.Intn(9)))
+			}
+			i := r.Intn(4)
+			if r.Bool() {
+				add("TX %s %s", toks(feeDenom)+":1000", hexa(i))
+				add("M bank.Send %s %s %s", toks(addr(i)), toks(burn), strings.Join(parts, ",")+","+toks(feeDenom)+":5")
+				add("ENDTX")
+			} else {
+				for _, p := range parts {
+					add("TX %s %s", toks(feeDenom)+":1000", hexa(i))
+					add("M bank.Send %s %s %s", toks(addr(i)), toks(burn), p)
+					add("ENDTX")
+				}
 			}
 		}
 		for t := 0; t < r.Intn(4); t++ {
